@@ -347,7 +347,43 @@ pub fn compound<S: Src>(s: &mut S) {
     });
 }
 
+/// A non-last member whose "no padding" answer has several spellings (`WHICH` = 0: an
+/// `UnknownBuilder`, 1: a feedback builder inside the `PacketBuilder` wrapper), before an RR.
+pub fn compound_first<S: Src, const WHICH: u8>(s: &mut S) {
+    let u = UnknownCfg::draw_with(s, Blob::<4> { len: 4, bytes: [0x5a; 4] });
+    let fbc = FbCfg::draw(s, false);
+    let rr = RrCfg::<0>::draw(s);
+    let pli = Pli::builder();
+    let (b, first_ok, first_pad) = if WHICH == 0 {
+        (Compound::builder().add_packet(u.builder()).add_packet(rr.builder()), u.valid(), u.padding)
+    } else {
+        let fb = PayloadFeedback::builder(&pli).sender_ssrc(fbc.sender).media_ssrc(fbc.media).padding(fbc.padding);
+        (Compound::builder().add_packet(PacketBuilder::from(fb)).add_packet(rr.builder()), padding_ok(fbc.padding), fbc.padding)
+    };
+    let r = b.calculate_size();
+    common::forget(b);
+    vcover!(r.is_ok(), "accepted");
+    vcover!(r == Err(E::NonLastCompoundPacketPadding), "non-last padding rejected");
+    let valid = first_ok && rr.valid() && first_pad == 0;
+    match r {
+        Ok(_) => assert!(valid, "accepted an unrepresentable configuration"),
+        Err(e) => {
+            assert!(!valid, "rejected a representable configuration");
+            assert!(
+                (first_pad > 0 && e == E::NonLastCompoundPacketPadding)
+                    || bad_padding(&e, first_pad)
+                    || bad_padding(&e, rr.padding)
+                    || (WHICH == 0 && u.count > 31)
+                    || (WHICH == 0 && u.data.len % 4 != 0),
+                "error does not name a violated rule"
+            );
+        }
+    }
+}
+
 common::register! {
+    q_compound_unknown_first = compound_first::<_, 0> => 3,
+    q_compound_wrapped_fb_first = compound_first::<_, 1> => 2,
     q_sr_1 = sr::<_, 1> => 320,
     q_sr_31 = sr::<_, 31> => 320,
     q_sr_32 = sr::<_, 32> => 320,
